@@ -74,9 +74,11 @@ fn attr_value(r: &mut CRng) -> AttributeKind {
 fn keys(r: &mut CRng) -> (BTreeMap<KeyIndex, KeyPair>, SignatureThreshold) {
     let n = 1 + r.0.below(3) as u8;
     let mut m = BTreeMap::new();
-    for i in 0..n {
-        let idx = if r.0.chance(1, 4) { 200 + i } else { i };
-        m.insert(KeyIndex(idx), KeyPair::generate(r));
+    // key indices: contiguous from 0 in a third of the cases, otherwise sparse (e.g. {0, 3, 200})
+    let sparse = !r.0.chance(1, 3);
+    while m.len() < n as usize {
+        let idx = if sparse { *r.0.pick(&[0u8, 1, 3, 7, 100, 200, 254, 255]) } else { m.len() as u8 };
+        m.entry(KeyIndex(idx)).or_insert_with(|| KeyPair::generate(r));
     }
     let t = 1 + r.0.below(n as u64) as u8;
     (m, SignatureThreshold::try_from(t).expect("non-zero"))
@@ -125,6 +127,7 @@ fn pipeline(ctx: &ChildCtx, sh: &mut Shard, idx: u64, r: &mut CRng) {
         _ => max_accounts,
     };
     let existing = r.0.chance(1, 2);
+    let ar_prefix = (idx + ctx.shard as u64 / 2) % 3 == 0;
     let cfg_json = json!({"ars": n, "threshold": t, "identity_object_version": if v1 {1} else {0}, "attributes": n_attrs, "revealed": reveal, "max_accounts": max_accounts, "counter": counter, "existing_account": existing});
     let cfg_sig = format!("n{}:t{}:v{}:a{}:{}:max{}:c{}:{}", n, t, v1 as u8, n_attrs, reveal, max_accounts, counter, if existing { "existing" } else { "new" });
     sh.hit(&format!("cfg.ars.{}", n));
@@ -151,11 +154,41 @@ fn pipeline(ctx: &ChildCtx, sh: &mut Shard, idx: u64, r: &mut CRng) {
         // demands (n_attrs + encoded ARs + 5); the exact minimum is probed separately
         let slack = 1 + r.0.below(3) as u8;
         let ip = test_create_ip_info(r, n, n_attrs as u8 + slack);
-        let (ars_infos, ars_secret) = test_create_ars(&global().on_chain_commitment_key.g, n, r);
+        // the chain / identity provider know more revokers than the holder chooses; the chosen
+        // identities are a prefix 1..=n in a third of the cases and a sparse, non-prefix set otherwise
+        let mut chosen: Vec<u32> = vec![];
+        if ar_prefix {
+            chosen = (1..=n as u32).collect();
+        } else {
+            while chosen.len() < n as usize {
+                let id = 2 + r.0.below(11) as u32;
+                if !chosen.contains(&id) {
+                    chosen.push(id);
+                }
+            }
+            chosen.sort();
+        }
+        let mut all = chosen.clone();
+        for _ in 0..r.0.below(3) {
+            let id = 1 + r.0.below(14) as u32;
+            if !all.contains(&id) {
+                all.push(id);
+            }
+        }
+        let base = global().on_chain_commitment_key.g;
+        let mut ars_infos = BTreeMap::new();
+        let mut ars_secret = BTreeMap::new();
+        for id in all {
+            let ar_id = ArIdentity::new(id);
+            let sk = concordium_base::elgamal::SecretKey::generate(&base, r);
+            ars_infos.insert(ar_id, ArInfo::<ArCurve> { ar_identity: ar_id, ar_description: Description { name: format!("AR{}", id), url: String::new(), description: String::new() }, ar_public_key: concordium_base::elgamal::PublicKey::from(&sk) });
+            ars_secret.insert(ar_id, sk);
+        }
+        let chosen_ids: Vec<ArIdentity> = chosen.into_iter().map(ArIdentity::new).collect();
         let id_use = test_create_id_use_data(r);
-        (ip, ars_infos, ars_secret, id_use)
+        (ip, ars_infos, ars_secret, id_use, chosen_ids)
     });
-    let (ip, ars_infos, ars_secret, id_use) = match setup {
+    let (ip, ars_infos, ars_secret, id_use, chosen_ids) = match setup {
         Ok(x) => x,
         Err(e) => {
             sh.inconclusive.push(format!("fixture creation panicked: {}", e));
@@ -164,7 +197,18 @@ fn pipeline(ctx: &ChildCtx, sh: &mut Shard, idx: u64, r: &mut CRng) {
     };
     let IpData { public_ip_info: ip_info, ip_secret_key, ip_cdi_secret_key } = ip;
     let g = global();
+    // `context`: what the identity provider and the chain know (all revokers);
+    // `context_holder`: the revokers the holder chooses
     let context = IpContext::new(&ip_info, &ars_infos, g);
+    let ars_chosen: BTreeMap<ArIdentity, ArInfo<ArCurve>> = chosen_ids.iter().map(|i| (*i, ars_infos[i].clone())).collect();
+    let context_holder = IpContext::new(&ip_info, &ars_chosen, g);
+    sh.hit(if ar_prefix { "cfg.ar_choice.prefix" } else { "cfg.ar_choice.sparse" });
+    if ars_infos.len() > ars_chosen.len() {
+        sh.hit("cfg.ar_choice.proper_subset_of_known");
+    }
+    if !ar_prefix && t >= 2 {
+        sh.hit("cfg.ar_choice.sparse_threshold_ge_2");
+    }
     let threshold = Threshold::try_new(t).expect("t >= 1");
     // attribute list
     let mut tags: Vec<u8> = vec![];
@@ -198,7 +242,7 @@ fn pipeline(ctx: &ChildCtx, sh: &mut Shard, idx: u64, r: &mut CRng) {
     if !v1 {
         let (ik, ith) = keys(r);
         let acc = InitialAccountData { keys: ik, threshold: ith };
-        let pio = match catch(|| generate_pio(&context, threshold, &id_use, &acc)) {
+        let pio = match catch(|| generate_pio(&context_holder, threshold, &id_use, &acc)) {
             Ok(Some((p, _))) => p,
             other => {
                 fail(sh, "generate_pio", format!("{:?}", other.map(|o| o.is_some())));
@@ -207,7 +251,36 @@ fn pipeline(ctx: &ChildCtx, sh: &mut Shard, idx: u64, r: &mut CRng) {
         };
         sh.hit("accept.generate_pio");
         match catch(|| validate_request(&pio, context)) {
-            Ok(Ok(())) => sh.hit("accept.validate_request"),
+            Ok(Ok(())) => {
+                sh.hit("accept.validate_request");
+                // index structure of the identity request: signatures / keys / AR data re-keyed in place
+                let mut reqs: Vec<(&str, PreIdentityObject<IpPairing, ArCurve>)> = vec![];
+                if !pio.poks.proof_acc_sk.sigs.keys().any(|k| k.0 == 255) {
+                    let mut p2 = pio.clone();
+                    let sigs = std::mem::take(&mut p2.poks.proof_acc_sk.sigs);
+                    p2.poks.proof_acc_sk.sigs = sigs.into_iter().map(|(k, v)| (KeyIndex(k.0 + 1), v)).collect();
+                    reqs.push(("pio.proof_acc_sk.shifted", p2));
+                }
+                if (idx + ctx.shard as u64) % 2 == 0 {
+                    let mut p2 = pio.clone();
+                    let m = std::mem::take(&mut p2.ip_ar_data);
+                    p2.ip_ar_data = m.into_iter().map(|(k, v)| (ArIdentity::new(u32::from(k) + 1), v)).collect();
+                    reqs.push(("pio.ip_ar_data.shifted", p2));
+                } else if !pio.pub_info_for_ip.vk_acc.keys.keys().any(|k| k.0 == 255) {
+                    let mut p2 = pio.clone();
+                    let m = std::mem::take(&mut p2.pub_info_for_ip.vk_acc.keys);
+                    p2.pub_info_for_ip.vk_acc.keys = m.into_iter().map(|(k, v)| (KeyIndex(k.0 + 1), v)).collect();
+                    reqs.push(("pio.vk_acc.keys.shifted", p2));
+                }
+                for (what, p2) in reqs {
+                    sh.evaluations += 1;
+                    sh.hit("reject.expected");
+                    sh.hit(&format!("perturb.{}", what));
+                    if let Ok(Ok(())) = catch(|| validate_request(&p2, context)) {
+                        sh.violate(idx, "accepted-altered", format!("c08:accepted:{}:{}", what, cfg_sig), format!("validate_request accepted an identity request whose '{}'", what), cfg_json.clone());
+                    }
+                }
+            }
             other => {
                 fail(sh, "validate_request", format!("{:?}", other));
                 return;
@@ -241,7 +314,7 @@ fn pipeline(ctx: &ChildCtx, sh: &mut Shard, idx: u64, r: &mut CRng) {
         pio_common_ar_data = pio.ip_ar_data.clone();
         id_obj = IdObj::V0(IdentityObject { pre_identity_object: pio, alist: alist.clone(), signature: sig.clone() });
     } else {
-        let pio = match catch(|| generate_pio_v1_with_rng(&context, threshold, &id_use, r)) {
+        let pio = match catch(|| generate_pio_v1_with_rng(&context_holder, threshold, &id_use, r)) {
             Ok(Some((p, _))) => p,
             other => {
                 fail(sh, "generate_pio_v1", format!("{:?}", other.map(|o| o.is_some())));
@@ -250,7 +323,20 @@ fn pipeline(ctx: &ChildCtx, sh: &mut Shard, idx: u64, r: &mut CRng) {
         };
         sh.hit("accept.generate_pio_v1");
         match catch(|| validate_request_v1(&pio, context)) {
-            Ok(Ok(())) => sh.hit("accept.validate_request_v1"),
+            Ok(Ok(())) => {
+                sh.hit("accept.validate_request_v1");
+                if (idx + ctx.shard as u64) % 2 == 0 {
+                    let mut p2 = pio.clone();
+                    let m = std::mem::take(&mut p2.ip_ar_data);
+                    p2.ip_ar_data = m.into_iter().map(|(k, v)| (ArIdentity::new(u32::from(k) + 1), v)).collect();
+                    sh.evaluations += 1;
+                    sh.hit("reject.expected");
+                    sh.hit("perturb.pio_v1.ip_ar_data.shifted");
+                    if let Ok(Ok(())) = catch(|| validate_request_v1(&p2, context)) {
+                        sh.violate(idx, "accepted-altered", format!("c08:accepted:pio_v1.ip_ar_data.shifted:{}", cfg_sig), "validate_request_v1 accepted an identity request whose AR data map was re-keyed".into(), cfg_json.clone());
+                    }
+                }
+            }
             other => {
                 fail(sh, "validate_request_v1", format!("{:?}", other));
                 return;
@@ -278,6 +364,7 @@ fn pipeline(ctx: &ChildCtx, sh: &mut Shard, idx: u64, r: &mut CRng) {
     };
     let policy = Policy { valid_to, created_at, policy_vec: revealed.clone(), _phantom: Default::default() };
     let (ck, cth) = keys(r);
+    sh.hit(if ck.keys().enumerate().all(|(i, k)| k.0 as usize == i) { "cfg.keys.contiguous" } else { "cfg.keys.sparse" });
     let cred_data = CredentialData { keys: ck, threshold: cth };
     let addr = AccountAddress({
         let mut a = [0u8; 32];
@@ -335,7 +422,7 @@ fn pipeline(ctx: &ChildCtx, sh: &mut Shard, idx: u64, r: &mut CRng) {
     // ---- anonymity revocation: every subset of >= t revokers
     {
         let expected = g.on_chain_commitment_key.g.mul_by_scalar(&id_use.aci.cred_holder_info.id_cred.id_cred_sec);
-        let ids: Vec<ArIdentity> = ars_secret.keys().copied().collect();
+        let ids: Vec<ArIdentity> = chosen_ids.clone();
         let shares: Vec<(ArIdentity, G1)> = ids
             .iter()
             .filter_map(|id| {
@@ -455,7 +542,7 @@ fn pipeline(ctx: &ChildCtx, sh: &mut Shard, idx: u64, r: &mut CRng) {
             });
         }
     }
-    for id in ars_infos.keys() {
+    for id in chosen_ids.iter() {
         for half in 0..2 {
             with_cdi!("values.ar_data", &format!("values.ar_data[{}].{}", id, half), |c| {
                 let e = c.values.ar_data.get_mut(id).unwrap();
@@ -470,14 +557,14 @@ fn pipeline(ctx: &ChildCtx, sh: &mut Shard, idx: u64, r: &mut CRng) {
     }
     if n >= 2 {
         with_cdi!("values.ar_data.swap", "values.ar_data.swap(1,2)", |c| {
-            let a = c.values.ar_data[&ArIdentity::new(1)].clone();
-            let b = c.values.ar_data[&ArIdentity::new(2)].clone();
-            c.values.ar_data.insert(ArIdentity::new(1), b);
-            c.values.ar_data.insert(ArIdentity::new(2), a);
+            let a = c.values.ar_data[&chosen_ids[0]].clone();
+            let b = c.values.ar_data[&chosen_ids[1]].clone();
+            c.values.ar_data.insert(chosen_ids[0], b);
+            c.values.ar_data.insert(chosen_ids[1], a);
             true
         });
         with_cdi!("values.ar_data.remove", "values.ar_data.remove(last)", |c| {
-            c.values.ar_data.remove(&ArIdentity::new(n as u32));
+            c.values.ar_data.remove(&chosen_ids[n as usize - 1]);
             true
         });
     }
@@ -577,7 +664,7 @@ fn pipeline(ctx: &ChildCtx, sh: &mut Shard, idx: u64, r: &mut CRng) {
         true
     });
     // proofs: every response scalar
-    for id in ars_infos.keys() {
+    for id in chosen_ids.iter() {
         for s in 0..3 {
             with_cdi!("proofs.proof_id_cred_pub", &format!("proofs.proof_id_cred_pub[{}].z{}", id, s), |c| {
                 let e: &com_enc_eq::Response<G1> = &c.proofs.id_proofs.proof_id_cred_pub[id];
@@ -656,6 +743,77 @@ fn pipeline(ctx: &ChildCtx, sh: &mut Shard, idx: u64, r: &mut CRng) {
         c.proofs.proof_acc_sk.sigs.remove(&k);
         true
     });
+    // ---- index structure of every map in the credential: same entries in the same order under other keys
+    with_cdi!("index.proof_acc_sk.shifted", "proofs.proof_acc_sk.indices+1", |c| {
+        let sigs = std::mem::take(&mut c.proofs.proof_acc_sk.sigs);
+        if sigs.keys().any(|k| k.0 == 255) {
+            c.proofs.proof_acc_sk.sigs = sigs;
+            false
+        } else {
+            c.proofs.proof_acc_sk.sigs = sigs.into_iter().map(|(k, v)| (KeyIndex(k.0 + 1), v)).collect();
+            true
+        }
+    });
+    with_cdi!("index.proof_acc_sk.last_moved", "proofs.proof_acc_sk.last_index_changed", |c| {
+        let (k, v) = c.proofs.proof_acc_sk.sigs.pop_last().unwrap();
+        // another index above the previous ones (order preserved)
+        let nk = if k.0 < 250 { k.0 + 5 } else { k.0 - 1 };
+        if c.proofs.proof_acc_sk.sigs.contains_key(&KeyIndex(nk)) {
+            c.proofs.proof_acc_sk.sigs.insert(k, v);
+            false
+        } else {
+            c.proofs.proof_acc_sk.sigs.insert(KeyIndex(nk), v);
+            true
+        }
+    });
+    with_cdi!("index.cred_key_info.shifted", "values.cred_key_info.key_indices_changed", |c| {
+        let keys = std::mem::take(&mut c.values.cred_key_info.keys);
+        if keys.keys().any(|k| k.0 == 255) {
+            c.values.cred_key_info.keys = keys;
+            false
+        } else {
+            c.values.cred_key_info.keys = keys.into_iter().map(|(k, v)| (KeyIndex(k.0 + 1), v)).collect();
+            true
+        }
+    });
+    with_cdi!("index.proof_id_cred_pub.shifted", "proofs.proof_id_cred_pub.ar_identities+1", |c| {
+        let m = std::mem::take(&mut c.proofs.id_proofs.proof_id_cred_pub);
+        c.proofs.id_proofs.proof_id_cred_pub = m.into_iter().map(|(k, v)| (ArIdentity::new(u32::from(k) + 1), v)).collect();
+        true
+    });
+    with_cdi!("index.ar_data.shifted", "values.ar_data.ar_identities+1", |c| {
+        let m = std::mem::take(&mut c.values.ar_data);
+        c.values.ar_data = m.into_iter().map(|(k, v)| (ArIdentity::new(u32::from(k) + 1), v)).collect();
+        true
+    });
+    with_cdi!("index.ar_data_and_proofs.shifted", "ar_data+proof_id_cred_pub.ar_identities+1", |c| {
+        // both maps re-keyed consistently: the credential then names other revokers than the signed ones
+        let m = std::mem::take(&mut c.values.ar_data);
+        c.values.ar_data = m.into_iter().map(|(k, v)| (ArIdentity::new(u32::from(k) + 1), v)).collect();
+        let m = std::mem::take(&mut c.proofs.id_proofs.proof_id_cred_pub);
+        c.proofs.id_proofs.proof_id_cred_pub = m.into_iter().map(|(k, v)| (ArIdentity::new(u32::from(k) + 1), v)).collect();
+        true
+    });
+    with_cdi!("index.cmm_attributes.shifted", "proofs.commitments.cmm_attributes.tags+1", |c| {
+        let m = std::mem::take(&mut c.proofs.id_proofs.commitments.cmm_attributes);
+        if m.is_empty() || m.keys().any(|k| k.0 >= 250) {
+            c.proofs.id_proofs.commitments.cmm_attributes = m;
+            false
+        } else {
+            c.proofs.id_proofs.commitments.cmm_attributes = m.into_iter().map(|(k, v)| (AttributeTag(k.0 + 1), v)).collect();
+            true
+        }
+    });
+    with_cdi!("index.policy.shifted", "values.policy.revealed.tags+1", |c| {
+        let m = std::mem::take(&mut c.values.policy.policy_vec);
+        if m.is_empty() || m.keys().any(|k| k.0 >= 250) {
+            c.values.policy.policy_vec = m;
+            false
+        } else {
+            c.values.policy.policy_vec = m.into_iter().map(|(k, v)| (AttributeTag(k.0 + 1), v)).collect();
+            true
+        }
+    });
     // serialized-bytes perturbation: a flipped bit somewhere in the wire format
     for _ in 0..4 {
         let mut b = cdi_bytes.clone();
@@ -690,10 +848,16 @@ fn pipeline(ctx: &ChildCtx, sh: &mut Shard, idx: u64, r: &mut CRng) {
             Ok(other_ip) => rej(sh, "context.ip_key", "context.other_ip_public_key", &cdi, &other_ip.public_ip_info, &ars_infos, g, &noe),
             Err(e) => sh.inconclusive.push(format!("second IP fixture panicked: {}", e)),
         }
-        for id in ars_infos.keys().take(2) {
+        for id in chosen_ids.iter().take(2) {
             let mut ars2 = ars_infos.clone();
             bump(&mut ars2.get_mut(id).unwrap().ar_public_key.key);
             rej(sh, "context.ar_key", &format!("context.ar[{}].public_key", id), &cdi, &ip_info, &ars2, g, &noe);
+        }
+        {
+            // the chain does not know one of the chosen revokers
+            let mut ars2 = ars_infos.clone();
+            ars2.remove(&chosen_ids[0]);
+            rej(sh, "context.ar_unknown", "context.chosen_ar_unknown_to_chain", &cdi, &ip_info, &ars2, g, &noe);
         }
         rej(sh, "context.global", "context.other_global_context", &cdi, &ip_info, &ars_infos, other_global(), &noe);
     }
